@@ -127,6 +127,7 @@ InitMachineFull(snips, mods) ==
      modst |-> <<>>,            \* per module: "absent" | "loading" | "loaded", and its object
      runs |-> <<>>,             \* results of finished snippets: [out, result]
      store |-> <<>>,
+     wcd |-> 0,                 \* 1: an abandoned class definition is still held by the interpreter (see the class token)
      sbase |-> 0,               \* length of the store when the prelude had run (objects above it are the program's)
      rc |-> <<>>,               \* Vm::range_cache: addresses of the (at most 8) most recently CREATED ranges, oldest first
      glob |-> [mod \in {"main"} |-> Builtins],
@@ -955,14 +956,17 @@ Fetch(m) ==
              envA == IF tk.d > 0 THEN Append(fr.env, <<tk.d, a0>>) ELSE fr.env
              frA == [frl EXCEPT !.env = envA]
              supR == IF hasSup THEN ReadVar(mA, frA, tk.sup.x, tk.sup.d) ELSE Ok(Cls("Object"))
-         IN IF IsErr(supR.err) THEN RaiseErr(SetFrame(mA, frA), supR.err)
-            ELSE IF ~IsClassValue(mA, supR.v) THEN RaiseErr(SetFrame(mA, frA), Err("RuntimeError", "Superclass must be a class."))
+             \* DeclareClass has created the class and its metaclass (Vm::working_class_def) before the superclass is looked at; when
+             \* that fails they stay there, unreachable for the program, until the next class declaration replaces them
+             mAb == [mA EXCEPT !.wcd = 1]
+         IN IF IsErr(supR.err) THEN RaiseErr(SetFrame(mAb, frA), supR.err)
+            ELSE IF ~IsClassValue(mA, supR.v) THEN RaiseErr(SetFrame(mAb, frA), Err("RuntimeError", "Superclass must be a class."))
             ELSE LET inherited == MethodsOf(mA, supR.v)
                      \* the hidden local `super` (only when a superclass is named)
                      mB == IF hasSup THEN Alloc(mA, Cell(supR.v)) ELSE mA
                      envB == IF hasSup THEN Append(envA, <<tk.superd, NewAddr(mA)>>) ELSE envA
                      caddr == NewAddr(mB)
-                     mC == Alloc(mB, ClassObj(tk.x, supR.v, inherited, {}))
+                     mC == [Alloc(mB, ClassObj(tk.x, supR.v, inherited, {})) EXCEPT !.wcd = 0]
                      \* #[constructor(name)]: a default initialiser, defined before the methods
                      mD == IF tk.ctor = "" THEN mC
                            ELSE LET cl == [Closure(pc, envB, tk.ctor, <<>>, FALSE, Nil, fr.mod) EXCEPT !.ctor = "default"]
@@ -1101,11 +1105,16 @@ FrameRefs(m, fr) ==
     \cup (IF fr.selfcell > 0 THEN {fr.selfcell} ELSE {}) \cup (IF fr.clo > 0 THEN {fr.clo} ELSE {})
     \cup UNION {RefsV(fr.ctl[i].it) \cup RefsV(fr.ctl[i].pend.v) : i \in 1..Len(fr.ctl)}
 FiberRefs(m, f) ==
-    UNION {FrameRefs(m, f.frames[i]) : i \in 1..Len(f.frames)} \cup (IF f.clo > 0 THEN {f.clo} ELSE {}) \cup RefsV(f.parked)
+    UNION {FrameRefs(m, f.frames[i]) : i \in 1..Len(f.frames)} \cup (IF f.clo > 0 /\ (f.frames # <<>> \/ f.st = "new") THEN {f.clo} ELSE {}) \cup RefsV(f.parked)
     \cup (IF f.caller > 0 THEN FiberAddr(m, f.caller) ELSE {})
+(* a captured variable whose scope is still live sits on the stack of the fiber running that scope (an open upvalue), and keeps
+   that fiber - with everything on its stack - alive for as long as a closure can reach the variable *)
+OwnerFibers(m, a) ==
+    UNION {FiberAddr(m, fi) : fi \in {f \in 1..Len(m.fibers) :
+              \E i \in 1..Len(m.fibers[f].frames) : \E j \in 1..Len(m.fibers[f].frames[i].env) : m.fibers[f].frames[i].env[j][2] = a}}
 Succ(m, a) ==
     LET o == m.store[a] IN
-    CASE o.k = "cell" -> RefsV(o.v)
+    CASE o.k = "cell" -> RefsV(o.v) \cup OwnerFibers(m, a)
       [] o.k \in {"vec", "tuple"} -> RefsSeq(o.es)
       [] o.k = "map" -> UNION {RefsV(o.es[i][1]) \cup RefsV(o.es[i][2]) : i \in 1..Len(o.es)}
       [] o.k = "inst" -> RefsV(o.cls) \cup UNION {RefsV(o.fields[f]) : f \in DOMAIN o.fields}
@@ -1136,15 +1145,20 @@ LiveCounts(m) ==
         map |-> Cardinality({a \in live : m.store[a].k = "map"}),
         inst |-> Cardinality({a \in live : m.store[a].k = "inst"}),
         range |-> Cardinality({a \in live : m.store[a].k = "range"}),
+        \* one closure per evaluated fn / lambda / method / default constructor, plus the closure of a script or module body for
+        \* as long as a frame running it exists (in a fiber that is still held)
+        closure |-> Cardinality({a \in live : m.store[a].k = "clo"})
+                    + Cardinality({p \in UNION {{<<fi, i>> : i \in 1..Len(m.fibers[fi].frames)} :
+                                                fi \in {m.store[a].idx : a \in {b \in Live(m) : m.store[b].k = "fiber"}} \cup ActiveChain(m, m.cur, Len(m.fibers))} :
+                                   m.fibers[p[1]].frames[p[2]].clo = 0}),
+        class |-> Cardinality({a \in live : m.store[a].k = "class"}) + m.wcd,          \* (the implementation has two objects per class: it and its metaclass)
         fiber |-> Cardinality({a \in live : m.store[a].k = "fiber" /\ m.store[a].idx # m.main}),     \* (the interpreter always holds one main fiber)
         boundclo |-> Cardinality({a \in live : m.store[a].k = "bound" /\ m.store[a].meth.k = "ref"}),
         boundnat |-> Cardinality({a \in live : m.store[a].k = "bound" /\ m.store[a].meth.k # "ref"}),
         veciter |-> Cardinality({a \in live : m.store[a].k = "iter" /\ m.store[a].kind = "vec"}),
         tupleiter |-> Cardinality({a \in live : m.store[a].k = "iter" /\ m.store[a].kind = "tuple"}),
         rangeiter |-> Cardinality({a \in live : m.store[a].k = "iter" /\ m.store[a].kind = "range"}),
-        (* a suspended fiber that the program can no longer reach may still be held, legitimately, by a captured variable that
-           lives on its stack (an open upvalue keeps its fiber); the model does not track that link, so such runs are not compared *)
-        exact |-> \A fi \in 1..Len(m.fibers) : (m.fibers[fi].frames # <<>> /\ fi # m.main) => FiberAddr(m, fi) \subseteq Live(m)]
+        exact |-> TRUE]
 
 AdvanceRun(m) ==
     IF m.status # "done" \/ m.result.kind \in {"Stuck", "OutOfModel"} THEN m
